@@ -318,21 +318,27 @@ PROPS = {
         ],
     },
     "C11": {
-        "gen": [],
-        "thm_module": "NutsModel.Thm.CtlTrace",
+        "gen": ["Progress"],
+        "thm_module": "NutsModel.Thm.C11Progress",
         "namespace": "NutsModel.Ctl",
         "theorems": ["no_deadlock", "terminates_after_finalize", "terminates_after_finalize_tight", "never_blocked_when_dead",
                      "complete_if_not_aborted", "n_le_total", "trace_prefix_invariant", "trace_prefix_full", "progress_agrees",
-                     "zero_total_records_nothing", "done_no_step"],
+                     "zero_total_records_nothing", "done_no_step",
+                     "pupd_eq", "progress_finished", "progress_divergences", "progress_steps", "progress_divergent_draws",
+                     "progress_total_unchanged", "mem_divIdx", "divIdx_length", "progress_counters_agree"],
         "harness": "C11",
         "level": "proof",
         "rule": ('the REAL parallel Sampler (rayon pool, 1..16 cores, 1..8 chains, HashMap and Arrow traces alternating, Diag NUTS / LowRank NUTS / Diag MCLMC presets in rotation) run under seeded schedule perturbation (hook arm_schedule: random sleeps/yields at every chain-loop and controller point) with a seeded script of pause / resume / progress / flush / inspect / wait_timeout / abort calls, a watchdog for hangs and catch_unwind for panics. ' +
                  "C11 mode: command scripts including repeated pause, resume without pause, commands after completion, abort while paused / "
                  "before any chain started, num_chains <,=,> num_cores, slow chains; runs end by wait or by abort. Direct oracle: every call "
                  "returns (watchdog), an un-aborted run records exactly num_tune+num_draws draws per chain equal to the sequential trace and "
-                 "reports finished, an aborted run's traces are prefixes of the sequential traces, progress counters never exceed the trace. "
+                 "reports finished, an aborted run's traces are prefixes of the sequential traces, progress counters never exceed the trace; at EVERY "
+                 "progress snapshot (script calls, polls, after completion) the divergence count, the list of divergent draws and the step total "
+                 "are those of the first finished_draws rows of the chain's trace (a quarter of the runs inject periodic recoverable density "
+                 "errors into every chain so that most draws diverge, and read the counters after all chains finished). "
                  "distinct_nontrivial = runs with a non-empty command script."),
         "trusted": ['C10-C13: the chain task and controller actions are a hand-written model (Model/Controller.lean): one loop iteration is one atomic step (justified: everything before the record part is chain-local and the trace mutex is held across record+progress); channels are FIFO lists; rayon scheduling, mpsc and Mutex internals, OS threads and timeouts are NOT modelled -- they are exercised by the real-sampler runs under seeded schedule perturbation, which sample interleavings rather than enumerate them', "C10-C13: tie = every chain task's event log (hook chain_event: task start, message seen at each loop top, blocking receive, draw, record, slot-gone, end) is replayed through the model's chainStep by the Lean driver and must be a run of the model"] + [
+            "C11: ChainProgress::update is TRANSLATED from src/sampler.rs on every run (Gen/Progress.lean; the Duration field `runtime` is not modelled): proved for the generated definition, for every start state and report sequence, finished_draws = number of reports, divergences = number of post-warmup divergent reports, divergent_draws = their positions, total_num_steps = sum of their step counts; that the chain loop calls update once per recorded draw is the hand model's progress_agrees plus the snapshot oracle on real runs",
             "C11: deadlock freedom is proved per chain (a chain has no step only if finished or blocked in recv with a live sender; after finalize it terminates within mailbox+2 steps); the controller thread's own select loop and the rendezvous command channel are exercised, not modelled",
         ],
     },
